@@ -310,6 +310,17 @@ let judge _name ins outs =
              if not (b_conn lsk ok) then "component=conn_window "
              else if not (b_stream lsk ok) then "component=stream_window "
              else "component=no_stranding " in
+           (* frame_size: was every oversized DATA frame of the failing step within a MAX_FRAME_SIZE the
+              receiver had in force at some earlier label (known finding C09-K1: lowered while queued)? *)
+           let comp =
+             if c <> "frame_size" || !k < 1 then comp else
+             let evs = List.nth o (!k - 1) in
+             let over = List.filter_map (fun (x, w) -> match w with
+                 | WData (_, _, d) when List.length d > int_of_n (maxf_of x (take !k ls)) -> Some (x, List.length d)
+                 | _ -> None) evs in
+             let was_legal (x, n) =
+               let rec go j = j >= 0 && (n <= int_of_n (maxf_of x (take j ls)) || go (j - 1)) in go (!k - 1) in
+             if over <> [] && List.for_all was_legal over then "lowered-max-frame-size " else comp in
            VPropfail (c, Printf.sprintf "first-fails-after-label=%d(%s) %sdelivered=%s" !k
                         (if !k >= 1 then List.nth ltoks (!k - 1) else "") comp
                         (if !k >= 1 then pr_evs (List.nth o (!k - 1)) else ""))
